@@ -87,10 +87,106 @@ def gen_feature_program(rng, feature):
              '      action: verif.act tag="tc" value=3', '      on-success: [tj]', '    tj:', '      join: all',
              '      action: verif.act tag="tj" value=<% $.a %>', '      publish:', '        v: <% $.a + $.b %>']
         return {'yaml': '\n'.join(y) + '\n', 'oracle': {}, 'meta': {'feature': feature}}
+    if feature == 'compose':
+        return gen_composed_program(rng)
     raise ValueError(feature)
 
 
-FEATURES = ['with_items', 'retry', 'policies', 'subwf', 'dataflow']
+def gen_composed_program(rng):
+    """Deterministic composition of the features: a tree of 3-6 tasks (each task has one parent, so it runs
+    at most once) plus optionally one `join: all` fed by two on-complete routes; task kinds: plain action,
+    with-items action (optional concurrency), sub-workflow call, with-items sub-workflow; optional retry /
+    wait-before / wait-after / pause-before; every task publishes its own variable; per (task, item, attempt)
+    outcomes; no engine commands, no cancellation, no timeout: the final summary is schedule independent."""
+    n = rng.randint(3, 6)
+    kinds, lines, oracle, meta_tasks = [], [], {}, []
+    parent = {0: None}
+    for i in range(1, n):
+        parent[i] = rng.randrange(0, i)
+    route = {}          # child -> 'on-success' | 'on-error' | 'on-complete'
+    will_fail = {}
+    for i in range(n):
+        kind = rng.choice(['act', 'act', 'act', 'items', 'sub', 'subitems'])
+        kinds.append(kind)
+    use_sub = any(k in ('sub', 'subitems') for k in kinds)
+    child_fails = use_sub and rng.random() < 0.25
+    y = ["version: '2.0'", 'main:', '  input:', '    - x: 5', '  output:']
+    for i in range(n):
+        y.append('    v%d: <%% $.get(v%d, null) %%>' % (i, i))
+    join_at = None
+    if n >= 4 and rng.random() < 0.4:
+        join_at = n           # an extra task joined from two distinct tasks
+        y.append('    vj: <% $.get(vj, null) %>')
+    y.append('  tasks:')
+    join_parents = rng.sample(range(n), 2) if join_at is not None else []
+    for i in range(n):
+        kind = kinds[i]
+        t = ['    t%d:' % i]
+        fails = False
+        if kind == 'act':
+            t.append('      action: verif.act tag="t%d" value=%d' % (i, i + 1))
+            retry = rng.random() < 0.3
+            seq = [rng.choice(['err', 'ok', 'ok']) for _ in range(4)]
+            if retry:
+                cnt = rng.choice([1, 2])
+                t += ['      retry:', '        count: %d' % cnt, '        delay: %d' % rng.choice([0, 1])]
+                for k, o in enumerate(seq):
+                    oracle[('t%d' % i, None, k)] = ('ok', i + 1) if o == 'ok' else ('err', 'boom')
+                fails = 'ok' not in seq[:cnt + 1]
+            elif rng.random() < 0.25:
+                oracle[('t%d' % i, None, None)] = ('err', 'boom')
+                fails = True
+        elif kind == 'items':
+            m = rng.choice([1, 2, 3])
+            t += ['      with-items: i in %s' % json.dumps(list(range(m))), '      action: verif.act tag="t%d" item=<%% $.i %%> value=<%% $.i * 10 %%>' % i]
+            if rng.random() < 0.5:
+                t.append('      concurrency: %d' % rng.choice([1, 2]))
+            for k in range(m):
+                if rng.random() < 0.2:
+                    oracle[('t%d' % i, k, None)] = ('err', 'boom')
+                    fails = True
+        elif kind == 'sub':
+            t.append('      workflow: sub a=<% $.x %>')
+            fails = child_fails
+        else:
+            t += ['      with-items: i in [1, 2]', '      workflow: sub a=<% $.i %>']
+            fails = child_fails
+        r = rng.random()
+        if r < 0.15:
+            t.append('      wait-before: %d' % rng.choice([1, 2]))
+        elif r < 0.3:
+            t.append('      wait-after: %d' % rng.choice([1, 2]))
+        elif r < 0.38:
+            t.append('      pause-before: true')
+        t += ['      publish:', '        v%d: <%% task().result %%>' % i]
+        will_fail[i] = fails
+        kids = [c for c in range(n) if parent.get(c) == i]
+        by_route = collections.defaultdict(list)
+        for c in kids:
+            # mostly routes that fire, sometimes one that does not (the subtree then never runs)
+            good = 'on-error' if fails else 'on-success'
+            bad = 'on-success' if fails else 'on-error'
+            by_route[rng.choice([good, good, good, 'on-complete', bad])].append('t%d' % c)
+        if i in join_parents:
+            by_route['on-complete'].append('tj')
+        for key in ('on-success', 'on-error', 'on-complete'):
+            if by_route[key]:
+                t.append('      %s: %s' % (key, json.dumps(by_route[key])))
+        lines += t
+        meta_tasks.append({'kind': kind, 'fails': fails})
+    if join_at is not None:
+        lines += ['    tj:', '      join: all', '      action: verif.act tag="tj" value=99', '      publish:', '        vj: <% task().result %>']
+    y += lines
+    if use_sub:
+        y += ['sub:', '  input:', '    - a', '  output:', '    o: <% $.a %>', '  tasks:', '    c1:', '      action: verif.act tag="c1" value=<% $.a %>',
+              '      on-success: [c2]', '    c2:', '      action: verif.act tag="c2" value=2']
+        if child_fails:
+            oracle[('c2', None, None)] = ('err', 'boom')
+    return {'yaml': '\n'.join(y) + '\n', 'oracle': oracle,
+            'meta': {'feature': 'compose', 'tasks': meta_tasks, 'join': join_at is not None, 'child_fails': child_fails}}
+
+
+FEATURES = ['with_items', 'retry', 'policies', 'subwf', 'dataflow', 'compose']
 
 
 # ------------------------------------------------------------------ one run
@@ -127,6 +223,7 @@ def run_one(d, prog, seed, inject_pause=False):
                           'what': 'non-declared exception: %s' % (d.entry_errors[-1]['msg'][:150] if d.entry_errors else '?')})
         check(str(ev[0]))
     paused = False
+    resumes = 0
     steps = 0
     while steps < 400:
         evs = [e for e in d.enabled() if not d._is_integrity_job(e)]
@@ -145,6 +242,11 @@ def run_one(d, prog, seed, inject_pause=False):
                 d.operator('resume', wid)
                 paused = False
                 continue
+            if resumes < 8 and (d.view()['wf'].get('R') or {}).get('state') == 'PAUSED':
+                # paused by the definition itself (pause-before policy): the operator resumes it
+                d.operator('resume', wid)
+                resumes += 1
+                continue
             break
         ev = evs[rng.randrange(len(evs))]
         o = d.fire(ev)
@@ -160,7 +262,11 @@ def run_one(d, prog, seed, inject_pause=False):
     root = v['wf'].get('R')
     summary = None
     if root is not None:
-        summary = (root['state'], json.dumps(root['output'], sort_keys=True),
+        out = dict(root['output'] or {})
+        if root['state'] in ('ERROR', 'CANCELLED') and isinstance(out.get('result'), str):
+            # the failure message lists task / action execution ids and the failed tasks in creation order
+            out['result'] = '<failure message>'
+        summary = (root['state'], json.dumps(out, sort_keys=True),
                    tuple(sorted((k.split('#')[0], t['state'], json.dumps(t['published'], sort_keys=True)) for k, t in v['tasks'].items())))
     if steps < 400 and root is not None:
         # C01: quiescent => final
